@@ -539,6 +539,14 @@ func reportPanics(c *core.Ctx, r *tlspair.Result, caseID string, input any) bool
 	return found
 }
 
+// undecided records a case the harness could not decide (script could not run, fault not applied, the refusal was
+// raised by the wrong side, ...). Such a case is not evaluated: it is counted and noted, never reported as a violation.
+func undecided(c *core.Ctx, key, detail, caseID string, input any) {
+	c.Count("undecided:"+key, 1)
+	c.Count("undecided_total", 1)
+	c.Note("undecided %s (%s): %s", key, caseID, detail)
+}
+
 // suppressWatchdogOnce: set when a run was already accounted for (panic reported) and the caller's generic
 // "undecided" path must not also count a watchdog firing. The drivers are single-goroutine.
 var suppressWatchdogOnce bool
